@@ -97,11 +97,11 @@ def _e2_check(c):
             f"Bool.eqb (dd_err o) {cc.coq_bool(c['err'] is not None)} && "
             + ("true" if c["err"] is not None else
                f"graph_match {exp} (dd_g o) && "
-               f"queue_match {cc.coq_qfiles(c['qfiles'])} {cc.coq_strs(c['qdirs'])} (queue_deleted (dd_deleted o) q0)"))
+               f"queue_match {cc.coq_qfiles(c['qfiles'])} {cc.coq_strs(c['qdirs'])} (queue_deleted (attached_tree_labels g0) (dd_deleted o) q0)"))
 
 
 def correspondence(ctx):
-    cases = cc.run(_e2_cases(ctx, ctx.scale(150, 1500)))
+    cases = cc.run(_e2_cases(ctx, ctx.scale(100, 1500)))
     checks = []
     for c in cases:
         nb, na = len(c["before"]["nodes"]), len(c["after"]["nodes"])
@@ -130,15 +130,83 @@ def correspondence(ctx):
                                  "error": c["err"]})
 
 
+async def _finalize_cases(ctx, n):
+    out = []
+    for k in range(n):
+        hids = cc.HashIds()
+        with cc.project_dir():
+            out.append(await cc.disk_case(ctx.rng, "none", hids))
+    return out
+
+
+def _wit(res):
+    return {"operations": res["log"], "returncode": res["returncode"], "tree_before": res["before_fs"],
+            "tree_after": res["after_fs"], "events": res["events"][-12:], "edits": res["edits"],
+            "graph_before": cc.graph_json(res["before_graph"])}
+
+
+def _run_oracle(ctx, n, suffix=""):
+    fin = cc.run(_finalize_cases(ctx, n))
+    seen = set()
+    checks = []
+    for r in fin:
+        unguarded = not cc.guarded(r)
+        nrem = sum(1 for p in r["before_fs"] if p not in r["after_fs"])
+        ndel = len(r["before_graph"]["nodes"]) - len(r["after_graph"]["nodes"])
+        ctx.case(("fin", repr(r["before_graph"]), repr(r["before_fs"])), unguarded and (nrem > 0 or ndel > 0))
+        ctx.count("finalize_successful_unrestricted", int(unguarded))
+        ctx.count("finalize_removed_paths", nrem)
+        ctx.count("finalize_deleted_nodes", ndel)
+        ctx.count("finalize_detached_survivors", sum(1 for x in r["after_graph"]["nodes"] if x["det"]))
+        for sig, detail in cc.oracle_c07(r):
+            if sig not in seen:
+                seen.add(sig)
+                ctx.add_failure("oracle", "finalize", "oracle:" + sig + suffix, detail, witness=_wit(r))
+        checks.append(cc.finalize_check(r))
+    bad = common.run_cases(ctx, "fin", cc.HEADER, checks, chunk=30)
+    ctx.traces_validated += len(checks) - len(bad)
+    ctx.count("E1c_cases", len(checks))
+    for i in bad[:3]:
+        ctx.add_failure("correspondence", "E1c:finalize", "E1c:finalize:model-differs" + suffix,
+                        "real Builder.finalize and the model's finalize disagree on tree, REMOVE events or graph",
+                        witness=_wit(fin[i]))
+    ctx.sample({"oracle": "after a successful unrestricted finalize with cleaning: detached outputs that nothing holds "
+                          "(search formulation: no attached node and no cycle reachable) are gone from graph and disk when "
+                          "unmodified; outputs of unneeded optional steps are reset and removed; emptied directories are gone",
+                "signatures": sorted(seen)})
+
+
+def _e3_part(ctx, n):
+    if not cc.e3_available():
+        ctx.notes.append("harness/e3.py not importable: E3 part skipped")
+        return
+    seen = set()
+    for rec in cc.e3_histories(ctx.rng, n, 7000 + 1000 * ctx.seed):
+        if "error" in rec:
+            ctx.count("e3_harness_errors", 1)
+            continue
+        ok = not (rec["kw"].get("targets") or not rec["kw"].get("clean", True) or (rec["rc"] & ~8) != 0)
+        nrem = sum(1 for p in rec["before_files"] if p not in rec["after_files"])
+        ctx.case(("e3", rec["seed"], rec["phase"]), ok and nrem > 0)
+        ctx.count("e3_builds", 1)
+        ctx.count("e3_successful_unrestricted_builds", int(ok))
+        ctx.count("e3_removed_files", nrem)
+        for sig, detail in cc.e3_oracle_c07(rec):
+            if sig not in seen:
+                seen.add(sig)
+                ctx.add_failure("oracle", "e3", sig, detail, witness=cc.e3_witness(rec))
+
+
 def oracle(ctx):
-    pass
+    _run_oracle(ctx, ctx.scale(30, 500))
+    _e3_part(ctx, ctx.scale(12, 150))
 
 
 def search(ctx):
-    pass
+    _run_oracle(ctx, 300, suffix=":search")
 
 
 def replay(ctx, obj):
-    print("replaying", obj["failure"].get("witness"))
+    print("replaying", str(obj["failure"].get("witness"))[:2000])
     correspondence(ctx)
     oracle(ctx)
